@@ -75,6 +75,13 @@ def make_agents(model, n, extras, ref, ctx):
 
 
 def gen_world(rng, kinds=("space", "discrete", "line", "grid"), max_cells=48, subunit=0.0):
+    w_ = _gen_world(rng, kinds, max_cells, subunit)
+    if w_["kind"] != "plain":
+        w_["wrap_as"] = rng.choice(["bool"] * 5 + ["loose"])
+    return w_
+
+
+def _gen_world(rng, kinds, max_cells, subunit):
     kind = rng.choice(kinds)
     wrap = rng.random() < 0.45
     if kind == "plain":
@@ -117,6 +124,8 @@ def make_world(model, spec, set_env=True):
         if kind != "space":
             w, h, d = int(spec["w"] // den), int(spec["h"] // den), int(spec["d"] // den)      # cell counts are whole numbers
         wrap = bool(spec["wrap"])
+        if spec.get("wrap_as") == "loose":
+            wrap = 1 if wrap else None          # the flag is annotated Optional[bool]: None means "not toroidal", 1 is as true as True
         if kind == "space":
             env = SpaceWorld(model, w, h, d, wrap_env=wrap)
         elif kind == "discrete":
